@@ -10,6 +10,7 @@ import (
 	"github.com/google/uuid"
 	"github.com/ovn-org/libovsdb/cache"
 	"github.com/ovn-org/libovsdb/database"
+	"github.com/ovn-org/libovsdb/mapper"
 	"github.com/ovn-org/libovsdb/model"
 	"github.com/ovn-org/libovsdb/ovsdb"
 	"github.com/ovn-org/libovsdb/updates"
@@ -289,9 +290,64 @@ func (t *Transaction) checkIndexes() error {
 				}
 				return err
 			}
+			// the conflict reported can be ignored, but it is only the first
+			// one found: check every index of the row against the database
+			if err := t.checkRowIndexesWithDatabase(table, tc, row); err != nil {
+				return err
+			}
 		}
 	}
 	return nil
+}
+
+// checkRowIndexesWithDatabase checks each schema index of a row operated with
+// in the transaction against the rows of the database that are neither
+// deleted nor updated by the transaction.
+func (t *Transaction) checkRowIndexesWithDatabase(table string, tc *cache.RowCache, row model.Model) error {
+	tableSchema := t.Model.Schema.Table(table)
+	info, err := t.Model.NewModelInfo(row)
+	if err != nil {
+		return err
+	}
+	uuid, err := info.FieldByColumn("_uuid")
+	if err != nil {
+		return err
+	}
+	for _, index := range tableSchema.Indexes {
+		conditions, err := t.Model.Mapper.NewEqualityCondition(info, indexFieldPointers(info, index)...)
+		if err != nil {
+			return err
+		}
+		existing, err := t.Database.List(t.DbName, table, conditions...)
+		if err != nil {
+			return err
+		}
+		for existingUUID := range existing {
+			if existingUUID == uuid.(string) {
+				continue
+			}
+			if _, isDeleted := t.DeletedRows[existingUUID]; isDeleted {
+				continue
+			}
+			if tc.HasRow(existingUUID) {
+				continue
+			}
+			return cache.NewIndexExistsError(table, conditions, strings.Join(index, ","), uuid.(string), []string{existingUUID})
+		}
+	}
+	return nil
+}
+
+// indexFieldPointers returns pointers to the fields of a model mapped to the
+// columns of an index
+func indexFieldPointers(info *mapper.Info, index []string) []interface{} {
+	pointers := make([]interface{}, 0, len(index))
+	for _, column := range index {
+		if fieldName, ok := info.Metadata.Fields[column]; ok {
+			pointers = append(pointers, reflect.ValueOf(info.Obj).Elem().FieldByName(fieldName).Addr().Interface())
+		}
+	}
+	return pointers
 }
 
 // checkTransactionRowsIndexes checks that no two rows of a table operated with
